@@ -511,6 +511,8 @@ def build(ctx, mobilizers):
         def fromQ(self, v): return Vec(list(v[:self.nq_in_use()]))
         def fromU(self, v): return Vec(list(v[:self.dof]))
         def fromQuat(self, v): return Vec(list(v[:4]))
+        def fromQVec3(self, v, offs): return Vec(list(v[int(offs):int(offs) + 3]))
+        def fromUVec3(self, v, offs): return Vec(list(v[int(offs):int(offs) + 3]))
         def nq_in_use(self): return self.nq
         def calcAcrossJointTransform(self, sbs, q, X):          # RigidBodyNode.h operator form: precalc + calcX_FM on the given q
             pool = [None] * self.calcQPoolSize(self)
@@ -802,9 +804,9 @@ class Scenario:
                 return R, Z
             if nm == "Free":
                 return R, Vec(q[k], q[k + 1], q[k + 2])
-            semi = self.params["semi"]          # contact point of the ellipsoid whose outward normal is Mz: p = diag(semi)*Mz_F
-            n = R.col(2)
-            return R, Vec(semi[0] * n[0], semi[1] * n[1], semi[2] * n[2])
+            # Ellipsoid: the documented translation is IMPLICIT (M origin on the ellipsoid surface at the point whose surface normal is Mz;
+            # (0,0,rz) in the reference configuration) -> clauses in c05.ellipsoid_position, no closed form here
+            return R, None
         raise KeyError(nm)
 
     def documented_qdot(self, q, u):
